@@ -10,8 +10,8 @@ namespace C16Driver
 def toks (s : String) : List String := (s.splitOn " ").filter (· ≠ "")
 def sections (s : String) : List (List String) := (s.splitOn "|").map toks
 
-def nat! (s : String) : Nat := if s.length > 200 then 0 else s.toNat?.getD 0
-def int! (s : String) : Int := if s.length > 200 then 0 else s.toInt?.getD 0
+def nat! (s : String) : Nat := if s.length > 4000 then 0 else s.toNat?.getD 0
+def int! (s : String) : Int := if s.length > 4000 then 0 else s.toInt?.getD 0
 
 def parseKV (t : String) : Nat × Int :=
   match t.splitOn ":" with
